@@ -152,6 +152,9 @@ def rule_crash(ctx):
             continue
         if any(F.callee_body(c) is not None and F.callee_body(c).name == 'build' and type_head(F.callee_body(c).impl_self or '') == ctx.roles.tracking_adt for c in b.calls.values()):
             entries.append(b)
+        elif b.impl_trait != 'pie::tracker::Tracker' and type_head(b.impl_self or '') != ctx.roles.tracking_adt and \
+                any(c.trait == 'pie::tracker::Tracker' and c.name == 'build_start' and not b.blocks[c.bb]['cleanup'] for c in b.calls.values()):
+            entries.append(b)  # the build pair emitted directly by the entry point
     R.floor('U2-P1', 'build entry points', len(entries), 2, props=P)
     for b in entries:
         inf = ctx.infeasible(b)
